@@ -60,6 +60,16 @@ def parse(template_text):
     while i < len(lines):
         ln = lines[i]
         st = ln.strip()
+        if st.startswith('//@defaults'):
+            tname = st.split()[1]
+            i += 1
+            dl = []
+            while i < len(lines) and not lines[i].strip().startswith('//@end'):
+                dl.append(lines[i].strip()[3:].strip())
+                i += 1
+            _defaults.setdefault(tname, []).extend(dl)
+            i += 1
+            continue
         if st.startswith('//@extract'):
             if buf:
                 segs.append(('text', '\n'.join(buf), buf_start))
@@ -165,10 +175,41 @@ def parse(template_text):
             i += 1
     if buf:
         segs.append(('text', '\n'.join(buf), buf_start))
+    # unit-wide R5: the cells declared on a struct's extract apply to every method extracted from an impl of that
+    # struct; `//@defaults TYPE` blocks add cellalias / tolerant rules to every fn extract of an impl of TYPE.
+    struct_cells = {}
+    for kind, ex, _ in segs:
+        if kind == 'extract' and ex.kind == 'struct' and ex.cells:
+            struct_cells[ex.name] = list(ex.cells)
+    for kind, ex, _ in segs:
+        if kind != 'extract' or ex.kind not in ('fn', 'closure') or not ex.impl:
+            continue
+        tnames = re.findall(r'[A-Za-z_]\w*', ex.impl)
+        for t in tnames:
+            if t in struct_cells and (ex.cells or ex.as_sig and '&mut self' in ex.as_sig):
+                for c in struct_cells[t]:
+                    if c not in ex.cells:
+                        ex.cells.append(c)
+            for d in _defaults.get(t, []):
+                k, _, v = d.partition(':')
+                k, v = k.strip(), v.strip()
+                if k == 'cellalias':
+                    nm, _, path = v.partition('=')
+                    path = path.strip()
+                    item = (nm.strip(), path.rsplit('.', 1)[0], path.rsplit('.', 1)[1])
+                    if item not in ex.cellalias and (ex.as_sig and '&mut self' in ex.as_sig):
+                        ex.cellalias.append(item)
+                elif d.startswith('rule'):
+                    mo = _RULE.match(d)
+                    if mo:
+                        cnt = mo.group(5)
+                        ex.rules.append((mo.group(1), bool(mo.group(2)), mo.group(3), mo.group(4), None if cnt in (None, '*') else int(cnt), cnt == '*'))
     return segs
 
 
 _files = {}
+_struct_cells = {}      # struct name -> cells declared on its //@extract struct block (unit-wide R5 for its methods)
+_defaults = {}          # type name -> list of (kind, payload) default directives for its fn extracts
 
 
 def read_repo(rel):
@@ -257,8 +298,11 @@ def expand_extract(ex, canary=False):
             raise AnchorLost('%s: anchored text is not a closure: %r' % (ex.id, ctext[:40]))
         bar = cm.index('|', 1)
         params = rsrc.norm(ctext[1:bar])
-        if ex.params is not None and rsrc.norm(ex.params) != params:
-            raise AnchorLost('%s: closure parameters changed: %r (contract written for %r)' % (ex.id, params, ex.params))
+        if ex.params is not None:
+            want = len([x for x in rsrc.split_top_commas((ex.params, mask(ex.params))) if x.strip()])
+            have = len([x for x in rsrc.split_top_commas((ctext[1:bar], cm[1:bar])) if x.strip()])
+            if want != have:
+                raise AnchorLost('%s: closure arity changed: %r (contract written for %r)' % (ex.id, params, ex.params))
         cbody = ctext[bar + 1:].strip()
         sig = '|' + ctext[1:bar] + '|'
         pats = [x.strip() for x in rsrc.split_top_commas((ctext[1:bar], cm[1:bar])) if x.strip()]
